@@ -61,7 +61,7 @@ func knownCrashLabels() map[string]bool {
 // replica that never crashed.
 func TestC08(t *testing.T) {
 	p := defaultProfile()
-	p.MinBlocks, p.MaxBlocks = 5, 14
+	p.MinBlocks, p.MaxBlocks = 5, 16
 	p.MaxTxs = 4
 	known := knownCrashLabels()
 	allBlocks := tier() == "thorough"
@@ -114,6 +114,9 @@ func TestC08(t *testing.T) {
 					// quick tier: all points of ~4 sampled blocks
 					if pct(gs.t, 35, "sampleBlock") {
 						sampled[blockIdx] = true
+					}
+					if (blockIdx+1)%10 == 0 {
+						sampled[blockIdx] = true // every 10th commit writes one more durable record (the reward hash)
 					}
 				} else {
 					sampled[blockIdx] = true
